@@ -292,6 +292,15 @@ class Program:
                 cands = self.trait_impls.get((base_type(t), tb, method), [])
                 if not cands and base_type(t).startswith("&"):
                     cands = self.trait_impls.get((base_type(t).lstrip("&"), tb, method), [])
+                tail = rest.lstrip(":")[len(method):] if rest else ""
+                tail = tail[2:] if tail.startswith("::") else tail
+                if tail and (tail.startswith("promoted[") or tail.startswith("{closure")):
+                    # an item nested in the impl method: `<T as Trait>::m::promoted[0]`
+                    for _, f in cands:
+                        g = self.fns.get(f.name + "::" + tail)
+                        if g is not None:
+                            return g
+                    return None
                 if len(cands) == 1:
                     return cands[0][1]
                 if len(cands) > 1:
